@@ -95,8 +95,11 @@ def run_schedule(cfg, chooser: Chooser):
     unraisable: List[str] = []
     loop.set_exception_handler(lambda l, ctx: unraisable.append(str(ctx.get("message")) + ":" + repr(ctx.get("exception"))))
 
+    # half of the runs construct the channel BEFORE the loop that uses it is running (a module-level / injected channel)
+    early = AsyncChannel(buffer_limit=cfg["buf"]) if (cfg["buf"] + cfg["items"] + cfg["receivers"]) % 2 else None
+
     async def main():
-        ch = AsyncChannel(buffer_limit=cfg["buf"])
+        ch = early if early is not None else AsyncChannel(buffer_limit=cfg["buf"])
         tasks: Dict[str, asyncio.Task] = {}
         timeout_cm = {}
 
@@ -220,15 +223,30 @@ def run_schedule(cfg, chooser: Chooser):
             # "every FUTURE receive / iteration terminates and every later send raises": late-comers on the closed channel,
             # after whatever way the earlier receivers ended (flush sentinel, done() check, cancellation)
             async def late():
-                for kind in ("anext", "receive", "send", "anext", "receive"):
+                for kind in ("anext", "receive", "send", "send_from_async", "send_from_list", "anext", "receive"):
                     for _ in range(6):
                         if kind == "send":
-                            d.log("call", "s_late", "send", (9, 0))
+                            d.log("call", "s9", "send", (9, 0))
                             try:
                                 await ch.send(Item((9, 0)))
-                                d.log("ret", "s_late", "send", "ok", (9, 0))
+                                d.log("ret", "s9", "send", "ok", (9, 0))
                             except ChannelClosed:
-                                d.log("ret", "s_late", "send", "ChannelClosed", (9, 0))
+                                d.log("ret", "s9", "send", "ChannelClosed", (9, 0))
+                            break
+                        if kind.startswith("send_from"):
+                            who = "s8" if kind.endswith("async") else "s7"
+                            items = [Item((int(who[1:]), k)) for k in range(2)]
+
+                            async def agen(items=items):
+                                for it in items:
+                                    yield it
+
+                            d.log("call", who, "send_from", items)
+                            try:
+                                await ch.send_from(agen() if kind.endswith("async") else items)
+                                d.log("ret", who, "send_from", "ok")
+                            except ChannelClosed:
+                                d.log("ret", who, "send_from", "ChannelClosed")
                             break
                         d.log("call", "r_late", kind)
                         try:
